@@ -139,6 +139,29 @@ Proof.
   rewrite skip_runes_chunks. rewrite skip_runes_spec. apply firstn_concat_prefix.
 Qed.
 
+(* ---- a length that reaches the end of the line: "the rest of the line" ---------------------------------- *)
+Lemma chunks_fuel_len k : forall s, length (chunks_fuel k s) <= length s.
+Proof.
+  induction k as [|k IH]; intro s; [simpl; lia|].
+  destruct s as [|b r]; [simpl; lia|]. cbn [chunks_fuel length].
+  pose proof (decode_adv b r) as Ha. specialize (IH (skipn (snd (decode_rune (b :: r))) (b :: r))).
+  rewrite skipn_length in IH. simpl length in *. lia.
+Qed.
+
+Lemma rune_count_le s : rune_count s <= length s.
+Proof. rewrite <- chunks_count. apply chunks_fuel_len. Qed.
+
+(* every declared length that is at least the number of runes of the line (so every length from
+   len(line) up to MaxInt64, whatever start_pos is) gives the rest of the line from start_pos *)
+Theorem fixed_slice_rest_proof start_pos len line : rune_count line <= len ->
+  rune_slice start_pos len line = concat (skipn (start_pos - 1) (chunks line))
+  /\ rune_slice start_pos len line = skip_runes (start_pos - 1) line.
+Proof.
+  intro H. rewrite fixed_slice_spec, skip_runes_spec. split; [|].
+  - rewrite firstn_all2; [reflexivity|]. rewrite skipn_length, chunks_count. lia.
+  - rewrite firstn_all2; [reflexivity|]. rewrite skipn_length, chunks_count. lia.
+Qed.
+
 Lemma valid_delim_enc_ok r : enc_ok r = true.
 Proof.
   destruct (valid_delim r) eqn:V; [|unfold enc_ok; rewrite V; reflexivity].
